@@ -12,12 +12,21 @@ import ast
 from ..core import AnalysisError
 from ..core import RuleResult
 from ..core import norm
+from ..flow import NORMAL
+from ..flow import RAISE
+from ..flow import Domain
+from ..flow import Interp
+from ..flow import Outcome
 from ..linear import lin_eq
 from ..linear import lin_str
 from ..linear import parse_expr
 from ..linear import single_assignments
 from ..model import ancestors
 from ..model import own_nodes
+from ..zone import Zone
+from ..zone import compare_forms
+from ..zone import lin
+from ..zone import sub
 
 FUNCS = [('DT_In', 'InClass.renderwb'),
          ('DT_InSV', 'sequence_variables.next_batches'),
@@ -359,7 +368,199 @@ def rule_opt_forms(model):
     return r
 
 
-RULES = [rule_windows, rule_keys, rule_params, rule_opt_forms]
+# ------------------------------------------------------------------ R5
+class _WindowDomain(Domain):
+    """Zone analysis of the window computation.  Variables: the integer
+    parameters and locals of the function and L = len(sequence)."""
+
+    def __init__(self, fi, seqname, names):
+        self.fi = fi
+        self.seq = seqname
+        self.rename = {f'len({seqname})': 'L'}
+        self.names = names
+        self.returns = []
+
+    def _alive(self, outs):
+        return [o for o in outs if not o.state.bottom]
+
+    def branch(self, test, st):
+        forms = compare_forms(test, self.rename)
+        if forms is None:
+            return [(True, st), (False, st)]
+        res = []
+        for b, fs in ((True, forms[0]), (False, forms[1])):
+            s2 = st
+            if fs is not None:
+                for f in fs:
+                    s2 = s2.assume_le0(f)
+            s2 = s2.copy()
+            s2.decisions = getattr(st, 'decisions', ()) + (
+                (norm(test), b),)
+            if not s2.bottom:
+                res.append((b, s2))
+        return res
+
+    def raises(self, node, st):
+        return []
+
+    def _probe(self, stmt):
+        if isinstance(stmt, ast.Expr) and \
+                isinstance(stmt.value, ast.Subscript) and \
+                isinstance(stmt.value.value, ast.Name) and \
+                stmt.value.value.id == self.seq and \
+                not isinstance(stmt.value.slice, ast.Slice):
+            return stmt.value.slice
+        return None
+
+    def simple(self, stmt, st):
+        idx = self._probe(stmt)
+        if idx is not None:
+            f = lin(idx, self.rename)
+            if f is None:
+                return [Outcome(NORMAL, st), Outcome(RAISE, st,
+                                                     'IndexError', stmt)]
+            ok = dict(f)
+            ok['L'] = ok.get('L', 0) - 1
+            ok[''] = ok.get('', 0) + 1          # idx - L + 1 <= 0
+            good = st.assume_le0(ok)
+            bad = st
+            if st.lb(f) >= 0:
+                no = {k: -c for k, c in f.items()}
+                no['L'] = no.get('L', 0) + 1    # L - idx <= 0
+                bad = st.assume_le0(no)
+            good.decisions = getattr(st, 'decisions', ()) + (
+                (f'{norm(stmt)} exists', True),)
+            bad = bad.copy()
+            bad.decisions = getattr(st, 'decisions', ()) + (
+                (f'{norm(stmt)} exists', False),)
+            return self._alive([Outcome(NORMAL, good),
+                                Outcome(RAISE, bad, 'IndexError', stmt)])
+        ns = self.effects(stmt, st)
+        return [Outcome(NORMAL, ns)]
+
+    def effects(self, stmt, st):
+        dec = getattr(st, 'decisions', ())
+        if isinstance(stmt, ast.Assign) and len(stmt.targets) == 1 and \
+                isinstance(stmt.targets[0], ast.Name):
+            x = stmt.targets[0].id
+            f = lin(stmt.value, self.rename)
+            ns = st.assign(x, f)
+            ns.decisions = dec
+            return ns
+        if isinstance(stmt, ast.AugAssign) and \
+                isinstance(stmt.target, ast.Name) and \
+                isinstance(stmt.op, (ast.Add, ast.Sub)):
+            e = ast.BinOp(left=ast.Name(id=stmt.target.id, ctx=ast.Load()),
+                          op=stmt.op, right=stmt.value)
+            ns = st.assign(stmt.target.id, lin(e, self.rename))
+            ns.decisions = dec
+            return ns
+        if isinstance(stmt, (ast.Assign, ast.AugAssign, ast.AnnAssign)):
+            ns = st.copy()
+            for t in ast.walk(stmt):
+                if isinstance(t, ast.Name) and isinstance(t.ctx, ast.Store) \
+                        and t.id in ns.vars:
+                    ns.forget(t.id)
+                    ns.havoc = True
+            ns.decisions = dec
+            return ns
+        return st
+
+    def enter_handler(self, h, st, exc):
+        return st
+
+    def on_return(self, node, st):
+        self.returns.append((node, st))
+        return [], st
+
+
+def rule_window_invariants(model):
+    r = RuleResult('C11.R5', 'the window computation returns 1 <= start <= '
+                   'end <= length and size >= 1 on every path, for every '
+                   'non-empty sequence and orphan >= 0 (zone abstract '
+                   'interpretation; an element probe sequence[i] that '
+                   'succeeds gives i < length, one that fails i >= length)')
+    fi = model.func('DT_InSV', 'opt')
+    ps = fi.params()
+    if len(ps) != 5:
+        raise AnalysisError('opt: unexpected signature')
+    seq = ps[4]
+    names = set(ps[:4])
+    for n in own_nodes(fi.node):
+        if isinstance(n, ast.Name) and isinstance(n.ctx, ast.Store):
+            names.add(n.id)
+    names.discard(seq)
+    vars_ = [''] + sorted(names) + ['L']
+    z = Zone(vars_)
+    z.add('', 'L', -1)            # L >= 1: the caller handles the empty case
+    z.add('', ps[3], 0)           # orphan >= 0
+    z.decisions = ()
+    dom = _WindowDomain(fi, seq, names)
+    it = Interp(dom, max_states=200000)
+    outs = it.run(fi.node, z)
+    if it.overflow:
+        raise AnalysisError('C11.R5: state budget exceeded')
+    esc = [o for o in outs if o.kind == RAISE]
+    for o in esc:
+        r.finding(fi.where, 'escaping IndexError', 'an element probe fails '
+                  'outside a handler', node=o.node, ctx=fi)
+    if not dom.returns:
+        raise AnalysisError('opt: no return reached')
+    undecided = []
+    failing = {}
+    n_paths = 0
+    seen = set()
+    for node, st in dom.returns:
+        if st.bottom:
+            continue
+        v = node.value
+        if not (isinstance(v, ast.Tuple) and len(v.elts) == 3):
+            raise AnalysisError('opt: return value is not a 3-tuple')
+        R = [lin(e, dom.rename) for e in v.elts]
+        if any(x is None for x in R):
+            raise AnalysisError('opt: non-linear return value')
+        obligations = [
+            ('start >= 1', sub({'': 1}, R[0])),
+            ('start <= end', sub(R[0], R[1])),
+            ('end <= length', sub(R[1], {'L': 1})),
+            ('size >= 1', sub({'': 1}, R[2])),
+        ]
+        dec = getattr(st, 'decisions', ())
+        path = ' & '.join((t if b else f'not ({t})') for t, b in dec)
+        if (path, st.key()) in seen:
+            continue
+        seen.add((path, st.key()))
+        n_paths += 1
+        fails = [name for name, f in obligations if not st.entails_le0(f)]
+        r.instance(fi.where, f'path: {path}'[:150],
+                   'all four hold' if not fails else 'NOT ESTABLISHED: '
+                   + ', '.join(fails))
+        for name in fails:
+            if st.havoc:
+                undecided.append((name, path))
+                continue
+            failing.setdefault(name, []).append((path, node, st))
+    for name, lst in sorted(failing.items()):
+        path, node, st = lst[0]
+        r.finding(fi.where, name,
+                  f'the window computation can return a window with '
+                  f'`{name}` violated on {len(lst)} path(s), e.g. [{path}]: '
+                  'nothing bounds the value there (an explicit end beyond '
+                  'the length of the sequence is returned as it is, and '
+                  'rendering the batch raises IndexError)', node=node,
+                  ctx=fi, path=st.trace)
+    if undecided and not r.findings:
+        raise AnalysisError('C11.R5: window invariants undecided after an '
+                            f'un-modelled update ({undecided[0]})')
+    r.stats = {'paths': n_paths}
+    if n_paths < 4:
+        raise AnalysisError(f'C11.R5: only {n_paths} return paths analysed')
+    r.floor = 4
+    return r
+
+
+RULES = [rule_windows, rule_keys, rule_params, rule_opt_forms,
+         rule_window_invariants]
 EXPLANATION = (
     'Linear normal forms of the arguments of every opt() call and of every '
     'published batch key, compared with the documented formula (sites must '
